@@ -80,6 +80,9 @@ func VerifHolding() {
 			rLast[t] = 100000000
 		} else {
 			rLast[t] = vrt.URange("rateLast", 1, 1<<40)
+			if t == fat2.PTickerPEG && vrt.Choose("pegUnpricedAtLast", 2) == 1 {
+				rLast[t] = 0 // PEG not priced in the last rated block (equation phase without supply, ...)
+			}
 		}
 	}
 	for _, t := range assets {
@@ -114,6 +117,10 @@ func VerifHolding() {
 	setup := func(db *sql.DB) (*Pegnetd, *sql.Tx) {
 		d := vrtNodeOn(db)
 		for _, t := range assets {
+			// an older rated block, outside the averaging window of `last` (period 3)
+			if _, err := db.Exec("INSERT INTO pn_rate (height, token, value) VALUES ($1, $2, $3)", last-3, t.String(), 100000000); err != nil {
+				panic(err)
+			}
 			if _, err := db.Exec("INSERT INTO pn_rate (height, token, value) VALUES ($1, $2, $3)", last, t.String(), rLast[t]); err != nil {
 				panic(err)
 			}
